@@ -62,7 +62,7 @@ func TestVerifC06(t *testing.T) {
 	o := vOpen(t, "C06")
 	defer o.Close()
 	rng := vRand()
-	nh := 60
+	nh := 160
 	if vThorough() {
 		nh = 600
 	}
@@ -214,8 +214,12 @@ func c06History(t *testing.T, o *vOut, seed int64, keyTypes []KeyType, idx int) 
 			o.Stat("ops_checked", 1)
 			o.Stat("keytype_"+string(kt), 1)
 		}
-		if len(opsTok) > 0 {
+		// the key-identity prediction is for one issuer's slots; with two issuers (and a possibly
+		// random issuer order) the byte-level oracles above judge, the model does not predict
+		if len(opsTok) > 0 && nIss == 1 {
 			o.Line("hist %d %s => %s", b01(reuse), strings.Join(opsTok, ","), strings.Join(obsTok, ","))
+		} else if len(opsTok) > 0 {
+			o.Stat("two_issuer_histories_checked", 1)
 		}
 	})
 }
